@@ -17,24 +17,24 @@ theorem poolView_some {w : World} {pl : Nat} {v : PView} :
 structure ViewSame (w w' : World) : Prop where
   size : w'.procs.size = w.procs.size
   view : ∀ pl, poolView w' pl = poolView w pl
-  held : ∀ q, (w'.proc q).held = (w.proc q).held
+  held : ∀ q pl, HoldRef.pool pl ∈ (w'.proc q).held ↔ HoldRef.pool pl ∈ (w.proc q).held
 
 theorem ViewSame.of_fp {m : Mask} {w w' : World} (h : Fp m w w') (hp : m.pools = false) (hh : m.held = false) :
     ViewSame w w' :=
-  ⟨h.2.2.2.2.2.2.2.1, poolView_of_fp h hp, h.2.2.2.2.2.2.2.2 hh⟩
+  ⟨h.2.2.2.2.2.2.2.1, poolView_of_fp h hp, fun q pl => by rw [h.2.2.2.2.2.2.2.2 hh q]⟩
 
 theorem ViewSame.of_same {w w' : World} (h : Same w w') : ViewSame w w' :=
   ViewSame.of_fp (Same.fp {} h) rfl rfl
 
 theorem ViewSame.upd {w w' : World} (h : ViewSame w w') {pl : Nat} {v : PView} (hv : poolView w pl = some v) :
     PoolUpd w w' pl v :=
-  ⟨h.size, by rw [h.view]; exact hv, fun pl' _ => h.view pl', fun q pl' _ => by rw [h.held q]⟩
+  ⟨h.size, by rw [h.view]; exact hv, fun pl' _ => h.view pl', fun q pl' _ => h.held q pl'⟩
 
 theorem ViewSame.linked {w w' : World} (h : ViewSame w w') {pl : Nat} {hh : HH} (lk : Linked w pl hh) : Linked w' pl hh :=
-  fun q => by rw [h.held q]; exact lk q
+  fun q => (h.held q pl).trans (lk q)
 
 theorem ViewSame.trans {a b c : World} (h1 : ViewSame a b) (h2 : ViewSame b c) : ViewSame a c :=
-  ⟨h2.size.trans h1.size, fun pl => (h2.view pl).trans (h1.view pl), fun q => (h2.held q).trans (h1.held q)⟩
+  ⟨h2.size.trans h1.size, fun pl => (h2.view pl).trans (h1.view pl), fun q pl => (h2.held q pl).trans (h1.held q pl)⟩
 
 theorem PoolInv.of_viewSame {w w' : World} (h : ViewSame w w') (hi : PoolInv w) : PoolInv w' := by
   refine ⟨by rw [h.size]; exact hi.1, ?_⟩
@@ -46,7 +46,7 @@ theorem PoolInv.of_viewSame {w w' : World} (h : ViewSame w w') (hi : PoolInv w) 
 
 theorem recordPool_viewSame (w : World) (a : Nat) : ViewSame w (recordPool w a) := by
   have hf := recordPool_fp w a
-  refine ⟨hf.2.2.2.2.2.2.2.1, ?_, hf.2.2.2.2.2.2.2.2 rfl⟩
+  refine ⟨hf.2.2.2.2.2.2.2.1, ?_, fun q pl => by rw [hf.2.2.2.2.2.2.2.2 rfl q]⟩
   intro pl
   unfold recordPool
   split
